@@ -1,3 +1,5 @@
 pub mod api;
 pub mod app;
 pub mod core;
+#[cfg(pnordahl_monorail_verif)]
+pub mod verif;
